@@ -3,7 +3,7 @@ from __future__ import annotations
 
 import random
 
-from .. import comp, e1, e2, equiv, harness, ic10, sym
+from .. import comp, e1, e2, equiv, harness, ic10, probes, sym
 from . import base
 
 PROP = "C03"
@@ -16,6 +16,7 @@ ASSUMPTIONS = [
     "a path on which the fold raises produces no literal and is vacuous; a counterexample is reported only if it replays on the real, uninstrumented table",
     "math functions: closed check (folder = math.<name>, emitted opcode of the same name, argument order)",
     "Set B (propagation): straight-line programs whose literal leaves are replaced by own-stack reads bound to the same numbers; outputs compared on the IC10 machine (device reads stay symbolic); folded literals may differ from run-time values in the 17th significant digit (allowed by C09): values are compared with relative tolerance 1e-13 after replay",
+    "Set C (constness): programs in which a name is bound once by a constant but is not a constant (parameter, re-binding in a branch / loop / other function / augmented assignment) are compared source vs emitted code with symbolic device reads under three option vectors",
 ]
 
 CONSTS = [0, 1, 2, 3, 5, 7, 10, 0.5, 0.25, 1.5, 100, -1, -2.5, 12, 60]
@@ -203,6 +204,20 @@ def run(tier: str) -> int:
         for pr in r["problems"]:
             path = e1.save_replay(PROP, dict(property=PROP, kind="propagation", name=spec["name"], const_src=spec["const_src"], var_src=spec["var_src"], binds=spec["binds"], problem=pr))
             rep.violation(f"{spec['name']} ({spec['shape']}): folded program differs from the same program with operands loaded from the stack: {pr['detail']}", path)
+    # ---- Set C: what is treated as a compile-time constant (names bound once by a constant that are
+    # not constants: parameters, branch / loop / cross-function re-bindings) - source vs emitted code
+    itemsC = []
+    for pname, psrc in probes.constness_probes():
+        for vn, opts in (("default", {}), ("noinline", {"inline_functions": False}), ("pushpop", {"inline_functions": False, "use_push_pop_functions": True})):
+            itemsC.append(("src_vs_ic10", dict(name=f"probe:{pname}@{vn}", sources=psrc, opts=opts, tier=tier, timeout=60)))
+    resC = harness.pmap(e1.run_task, itemsC)
+    for (_, spec), r in zip(itemsC, resC):
+        if r["status"] == "harness_error":
+            rep.harness_errors.append(f"{spec['name']}: {r.get('detail')}")
+        if r["status"] == "divergence":
+            path = e1.save_replay(PROP, dict(property=PROP, kind="src_vs_ic10", name=spec["name"], sources=spec["sources"], opts=spec["opts"], result=r))
+            d = (r.get("divergences") or [{}])[0]
+            rep.violation(f"{spec['name']}: a name that is not a compile-time constant was folded: {d.get('detail', r.get('detail'))}", path)
     if tot["unknown"]:
         rep.notes.append(f"note: {tot['unknown']} obligations inconclusive (solver unknown)")
     tot["solver_s"] = round(tot["solver_s"], 2)
@@ -216,6 +231,7 @@ def run(tier: str) -> int:
         math_functions=mf,
         set_b=dict(programs=len(resB), by_status=base.count_by(resB), shapes=base.count_by(resB, "shape"),
                    effects_compared=sum(r.get("effects_compared", 0) for r in resB), paths=sum(r.get("paths", 0) for r in resB)),
+        set_c=dict(programs=len(resC), by_status=base.count_by(resC), effects_compared=sum(r.get("effects_compared", 0) for r in resC), paths=sum(r.get("paths", 0) for r in resC)),
         exhaustive=False,
     )
     return rep.finish()
